@@ -44,7 +44,7 @@ _rolling_hash2_init(struct isal_rh_state2 *state, uint32_t w)
         uint32_t i;
         uint64_t v;
 
-        if (w > ISAL_FINGERPRINT_MAX_WINDOW)
+        if (w == 0 || w > ISAL_FINGERPRINT_MAX_WINDOW)
                 return -1;
 
         for (i = 0; i < 256; i++) {
